@@ -79,6 +79,7 @@ fn main() {
         "clifault" => cli::suite_clifault(&out, seed, thorough, &mut st),
         "ioread" => http::suite_ioread(&out, seed, thorough, &mut st),
         "clone" => clone::suite_clone(&out, seed, thorough, &mut st),
+        "hashkey" => clone::suite_hashkey(&out, seed, thorough, &mut st),
         _ => {
             eprintln!("unknown suite {}", suite);
             std::process::exit(2);
